@@ -975,3 +975,29 @@ func mapOrderRule(r *Report, p *Prog, rule string, fns []*ssa.Function) int {
 	}
 	return n
 }
+
+func debugMapRange(p *Prog) {
+	var roots []*ssa.Function
+	for _, n := range []string{"(*resolve/npm.resolver).Resolve", "(*resolve/maven.resolver).Resolve", "(*resolve/pypi.resolver).Resolve"} {
+		if f := p.lookupFn(n); f != nil {
+			roots = append(roots, f)
+		}
+	}
+	reach := p.reachableFrom(roots)
+	var fs []*ssa.Function
+	for f := range reach {
+		fs = append(fs, f)
+	}
+	sort.Slice(fs, func(i, j int) bool { return fnKey(fs[i]) < fnKey(fs[j]) })
+	for _, f := range fs {
+		for _, b := range f.Blocks {
+			for _, in := range b.Instrs {
+				if rg, ok := in.(*ssa.Range); ok {
+					if _, ok := rg.X.Type().Underlying().(*types.Map); ok {
+						fmt.Printf("%s\t%s\t%s\n", p.pos(rg.Pos()), fnKey(f), short(rg.X.Type().String()))
+					}
+				}
+			}
+		}
+	}
+}
